@@ -67,7 +67,7 @@ fn main_c11(tier: &str, seed: u64, replay: Option<&str>) -> i32 {
         if oracle == "M-memory" {
             let args: Vec<String> = serde_json::from_value(v["mem_args"].clone()).unwrap_or_default();
             let n = v["mem_n"].as_u64().unwrap_or(500) as usize;
-            let (viol, _) = c11::memory_check(&args, n, v["seed"].as_u64().unwrap_or(1), v["mem_long_lines"].as_bool().unwrap_or(false), v["mem_many_files"].as_bool().unwrap_or(false));
+            let (viol, _) = c11::memory_check(&args, n, v["seed"].as_u64().unwrap_or(1), v["mem_long_lines"].as_bool().unwrap_or(false), v["mem_many_files"].as_bool().unwrap_or(false), v["mem_wrap_shapes"].as_bool().unwrap_or(false));
             return match viol {
                 Some(x) => {
                     println!("VIOLATION property=C11 replay={}", path);
@@ -129,16 +129,22 @@ fn main_c11(tier: &str, seed: u64, replay: Option<&str>) -> i32 {
         // everything that decorates lines with per-line or per-file extras
         vec!["--no-gitconfig".into(), "--width".into(), "120".into(), "--hyperlinks".into(), "--line-numbers".into(), "--navigate".into(), "--relative-paths".into()],
         vec!["--no-gitconfig".into(), "--width".into(), "120".into(), "--side-by-side".into(), "--hyperlinks".into(), "--diff-so-fancy".into()],
+        // wide and narrow terminals, wrapping without limit, truncation instead of wrapping
+        vec!["--no-gitconfig".into(), "--width".into(), "200".into(), "--side-by-side".into()],
+        vec!["--no-gitconfig".into(), "--width".into(), "400".into(), "--side-by-side".into(), "--wrap-max-lines".into(), "unlimited".into(), "--line-numbers".into()],
+        vec!["--no-gitconfig".into(), "--width".into(), "60".into(), "--side-by-side".into(), "--wrap-max-lines".into(), "0".into()],
+        vec!["--no-gitconfig".into(), "--width".into(), "60".into(), "--line-numbers".into(), "--keep-plus-minus-markers".into(), "--tabs".into(), "3".into(), "--max-line-length".into(), "90".into()],
     ];
     // every configuration with ordinary lines and with over-long lines
     // every configuration with ordinary lines, with over-long lines, and with one file per hunk
-    let mem: Vec<(Option<Violation>, serde_json::Value)> = par_map(if worddiff { 0 } else { mem_cfgs.len() * 3 }, &|j| {
-        let i = j / 3;
-        let long = j % 3 == 1;
-        let many = j % 3 == 2;
+    let mem: Vec<(Option<Violation>, serde_json::Value)> = par_map(if worddiff { 0 } else { mem_cfgs.len() * 4 }, &|j| {
+        let i = j / 4;
+        let long = j % 4 == 1;
+        let many = j % 4 == 2;
+        let wrap = j % 4 == 3;
         let a = mem_cfgs[i].clone();
-        let nn = if long { mem_n / 10 } else { mem_n };
-        sim::on_fresh_thread(simcore::rng::mix(seed, &[simcore::rng::tag("C11-mem"), j as u64]), move || c11::memory_check(&a, nn.max(50), seed, long, many))
+        let nn = if long { mem_n / 10 } else if wrap { mem_n / 3 } else { mem_n };
+        sim::on_fresh_thread(simcore::rng::mix(seed, &[simcore::rng::tag("C11-mem"), j as u64]), move || c11::memory_check(&a, nn.max(50), seed, long, many, wrap))
     });
 
     let known = load_known();
@@ -213,14 +219,14 @@ fn main_c11(tier: &str, seed: u64, replay: Option<&str>) -> i32 {
     }
     let mut mem_samples = Vec::new();
     for (j, (v, info)) in mem.iter().enumerate() {
-        let i = j / 3;
+        let i = j / 4;
         mem_samples.push(info.clone());
         if let Some(x) = v {
             if let Some(k) = known.matches("C11", x) {
                 known_hit.entry(k.signature.clone()).or_insert((k.what.clone(), 0)).1 += 1;
                 continue;
             }
-            let path = write_replay("C11", &format!("M-memory-{}", j), &json!({"property": "C11", "engine": "E2-inproc", "seed": seed, "oracle": "M-memory", "signature": x.signature, "message": x.message, "mem_args": mem_cfgs[i], "mem_n": if j % 3 == 1 { (mem_n / 10).max(50) } else { mem_n }, "mem_long_lines": j % 3 == 1, "mem_many_files": j % 3 == 2}));
+            let path = write_replay("C11", &format!("M-memory-{}", j), &json!({"property": "C11", "engine": "E2-inproc", "seed": seed, "oracle": "M-memory", "signature": x.signature, "message": x.message, "mem_args": mem_cfgs[i], "mem_n": if j % 4 == 1 { (mem_n / 10).max(50) } else if j % 4 == 3 { (mem_n / 3).max(50) } else { mem_n }, "mem_long_lines": j % 4 == 1, "mem_many_files": j % 4 == 2, "mem_wrap_shapes": j % 4 == 3}));
             println!("VIOLATION property=C11 replay={}", path.display());
             println!("  oracle={} {}", x.oracle, x.message);
             exit = 1;
